@@ -98,6 +98,7 @@ fn main() {
             let rc = match args[2].as_str() {
                 "midi" => graphrun::run(&g, &mut midi::GraphTarget::new(3), seed, thorough),
                 "adsr" => graphrun::run(&g, &mut adsr::GraphTarget::new(&g.init_proj), seed, thorough),
+                "lfo" => graphrun::run(&g, &mut lfo::GraphTarget::new(), seed, thorough),
                 "ribbon100" => graphrun::run(&g, &mut ribbon::GraphTarget::new(100), seed, thorough),
                 "ribbon500" => graphrun::run(&g, &mut ribbon::GraphTarget::new(500), seed, thorough),
                 _ => usage(),
